@@ -6,11 +6,17 @@
     the kernel's distance is no longer a number of single-symbol edits and the bound does not apply;
     what the code does there is reported by the check as a labelled observation.
 
+    Guard [cells_exact] (round 2): the cells of a Table4mer are uint16 (width REGENERATED from the build into
+    Gen/Tables.v); the model computes the shared counts from the WRAPPED cells ([common4w]); the search theorems
+    hold when no 4-mer occurs 2^16 times or more in any sequence, and fail beyond (C15_qgram_wrapped_refuted,
+    C15_search_wrapped_refuted; known finding C15/search-4mer-count-wrap).
+
     Trusted (Section variables): the kernel (property C09) — hypothesis [kernel_edits]: the distance
     alilen - lcs it reports for two acgt sequences is witnessed by that many single-symbol edits; the
     callers' use of the bounded kernels is [Model.kern]. The taxonomy (property C14) — [anc]/[lca] with
     reflexivity, transitivity and the greatest-lower-bound law. *)
 From Coq Require Import NArith List Bool Arith Sorted Permutation.
+From OBI.C15.Gen Require Import Tables.
 From OBI.C15 Require Import Model Proofs.
 Import ListNotations.
 
@@ -23,6 +29,28 @@ Proof. exact kmers4_length. Qed.
 Theorem C15_encode4mer_is_windows : forall s, encode4mer s = kmers4 s.
 Proof. exact encode4mer_kmers4. Qed.
 
+(** the base-code table of Encode4mer is regenerated from the build on every run (Gen/Tables.v); re-proved
+    from it: 32 entries (indexed by byte & 31), a c g t u -> 0 1 2 3 3 in both cases, every code <= 3, and a
+    symbol with a non-zero code is one of c g t u (any other symbol is coded like a) *)
+Theorem C15_base_code_table :
+  length base_code_tab = 32 /\
+  map base_code [97; 99; 103; 116; 117; 65; 67; 71; 84; 85]%N = [0; 1; 2; 3; 3; 0; 1; 2; 3; 3]%N /\
+  (forall b, (base_code b <= 3)%N) /\
+  (forall b, base_code b <> 0%N -> In (N.land b 31) [3; 7; 20; 21]%N).
+Proof. exact base_code_table. Qed.
+
+(** the cells of Table4mer: 256 counters of 16 bits (regenerated); under the guard "no 4-mer occurs 2^16
+    times or more" the wrapped cells are the exact counts and Common4Mer is the multiset intersection *)
+Theorem C15_cells_are_uint16 : cell_modulus = 65536%N /\ table_cells = 256%N.
+Proof. exact (conj cell_modulus_val table_cells_val). Qed.
+(** the correspondence computes one table per sequence ([table4]) and intersects tables: same numbers *)
+Theorem C15_table_shared_count : forall s t, commonw_tab (table4 s) (table4 t) = common4w s t.
+Proof. exact table_common4w. Qed.
+Theorem C15_wrapped_count_exact : forall s t, cells_exact s -> cells_exact t -> common4w s t = common4 s t.
+Proof. exact common4w_exact. Qed.
+Theorem C15_short_sequences_exact : forall s, (N.of_nat (length s) < 65539)%N -> cells_exact s.
+Proof. exact short_cells_exact. Qed.
+
 (** q-gram bound [core]: d single-symbol edits (substitution, insertion, deletion) leave at least
     max(|s|,|t|) - 3 - 4d shared 4-mers (Common4Mer of the Count4Mer tables): one edit destroys at
     most four 4-mers. Proved for every byte sequence, in particular over {a,c,g,t} (symbols outside
@@ -30,6 +58,18 @@ Proof. exact encode4mer_kmers4. Qed.
 Theorem C15_qgram_bound : forall d s t, edits d s t ->
   Nat.max (length s) (length t) - 3 - 4 * d <= common4 s t.
 Proof. exact qgram_bound. Qed.
+
+(** [core, round 2] the bound holds for the counts the code computes (wrapped uint16 cells) whenever the guard
+    holds ... *)
+Theorem C15_qgram_bound_wrapped : forall d s t, edits d s t -> cells_exact s -> cells_exact t ->
+  Nat.max (length s) (length t) - 3 - 4 * d <= common4w s t.
+Proof. exact qgram_bound_wrapped. Qed.
+(** ... and fails beyond it: 65538 a / 65539 a are one insertion apart and share NO 4-mer by the wrapped cells
+    (the same two sequences give Common4Mer = 0 on the real code: corpus case of tools/props/c15.py) *)
+Theorem C15_qgram_wrapped_refuted :
+  edits 1 hq hr /\ cells_exact hq /\ ~ cells_exact hr /\ common4w hq hr = 0 /\
+  ~ (Nat.max (length hq) (length hr) - 3 - 4 * 1 <= common4w hq hr).
+Proof. exact qgram_wrapped_refuted. Qed.
 
 (** what the kernel hypothesis of C15_search_lossless asks of FastLCSScore: an alignment with
     alilen columns of which lcs are matches (equal symbols) is a script of alilen - lcs edits *)
@@ -50,12 +90,14 @@ Proof. exact search_lossless. Qed.
 (** [core] over sequences: for an acgt query and acgt references, any candidate order that is a
     permutation of the database sorted by decreasing shared 4-mers (sort.Sort is not stable: the
     order among equal counts is arbitrary), FindClosests returns (argmin set of the kernel
-    distance, min distance) = the answer of comparing the query with every reference *)
+    distance, min distance) = the answer of comparing the query with every reference. [cands_of] carries the
+    shared counts of the WRAPPED uint16 cells; guard: no 4-mer occurs 2^16 times or more in any sequence. *)
 Theorem C15_search_lossless :
   forall kernel : list N -> list N -> nat * nat,
   (forall q r, acgt_only q -> acgt_only r -> edits (kdist kernel q r) q r) ->
   forall q refs order,
     acgt_only q -> Forall acgt_only refs -> refs <> [] ->
+    cells_exact q -> Forall cells_exact refs ->
     Permutation order (seq 0 (length refs)) ->
     by_decreasing_cw (cands_of q refs (map (kernel q) refs) order) ->
     let st := find_closests thr_fixed (length q) (cands_of q refs (map (kernel q) refs) order) in
@@ -68,18 +110,36 @@ Proof. exact search_lossless_seq. Qed.
 (** the order check that [Model.case_ok] executes on every correspondence case (the code's own
     order, read back through the harness) discharges the two hypotheses on the order *)
 Theorem C15_valid_order_sound : forall q refs qd order,
-  valid_order order (map (fun r => common4 q r) refs) = true ->
+  valid_order order (map (fun r => common4w q r) refs) = true ->
   Permutation order (seq 0 (length refs)) /\ by_decreasing_cw (cands_of q refs qd order).
-Proof. exact valid_order_sound. Qed.
+Proof. exact (valid_order_sound common4w). Qed.
 
 (** the repaired threshold is below the shared count of every reference at the distance used:
     pruning below it can only drop references that are strictly farther (both scans) *)
 Theorem C15_threshold_sound :
   forall kernel : list N -> list N -> nat * nat,
   (forall q r, acgt_only q -> acgt_only r -> edits (kdist kernel q r) q r) ->
-  forall q r, acgt_only q -> acgt_only r ->
-    thr_fixed (length q) (length r) (kdist kernel q r) <= common4 q r.
-Proof. exact threshold_sound. Qed.
+  forall q r, acgt_only q -> acgt_only r -> cells_exact q -> cells_exact r ->
+    thr_fixed (length q) (length r) (kdist kernel q r) <= common4w q r.
+Proof. exact threshold_sound_w. Qed.
+
+(** beyond the guard the scan loses the closest reference: query 65538 a; references 65539 a (distance 1, wrapped
+    shared count 0) and c a^65536 c (distance 2, shared count 65533, scanned first): answer = the second one at
+    distance 2, for ANY kernel reporting these two distances *)
+Theorem C15_search_wrapped_refuted : forall kernel : list N -> list N -> nat * nat,
+  kdist kernel hq hr = 1 -> kdist kernel hq hr2 = 2 ->
+  let cs := cands_of hq [hr; hr2] (map (kernel hq) [hr; hr2]) [1; 0] in
+  by_decreasing_cw cs /\
+  s_maxe (find_closests thr_fixed (length hq) cs) = Some 2 /\ s_bests (find_closests thr_fixed (length hq) cs) = [1].
+Proof. exact search_wrapped_refuted. Qed.
+
+(** whatever the threshold, the counts (wrapped or not), the symbols (IUPAC or not) and the cap: the answer of
+    the scan is the EXACT answer (minimal distance, all ties) over a non-empty prefix of the candidate order;
+    the reported distance is never below the true minimum and only candidates after the break can be lost *)
+Theorem C15_search_prefix_exact : forall thr qlen cs, cs <> [] ->
+  exists pre post, cs = pre ++ post /\ pre <> [] /\
+    s_maxe (find_closests thr qlen cs) = minl pre /\ s_bests (find_closests thr qlen cs) = best_set pre.
+Proof. exact search_prefix_exact. Qed.
 
 (** the threshold of the unrepaired code (length of the current best reference) loses a tie:
     query tcccccga, references tccctcga (one substitution) and tcccccgag (one insertion, scanned
@@ -98,6 +158,37 @@ Proof. exact search_orig_refuted. Qed.
 Theorem C15_search2_lossless_upto_1001 : forall thr qlen cs, length cs <= 1001 ->
   find_closests2 thr qlen cs = find_closests thr qlen cs.
 Proof. exact search2_upto_1001. Qed.
+(** [round 2] sharp statement, no bound on the database: the scan of obitag2 (candidates of rank 0..1000 in the
+    order of decreasing shared 4-mers) returns the minimal distance m and exactly the candidates at distance m
+    IF AND ONLY IF no candidate at distance m has rank > 1000 *)
+Theorem C15_search2_lossless_iff_no_closest_beyond_rank_1000 :
+  forall qlen cs, cs <> [] -> by_decreasing_cw cs -> qgram_ok qlen cs ->
+  forall m, (forall c, In c cs -> m <= c_d c) -> (exists c, In c cs /\ c_d c = m) ->
+  (s_maxe (find_closests2 thr_fixed qlen cs) = Some m /\
+   s_bests (find_closests2 thr_fixed qlen cs) = map c_idx (filter (fun c => c_d c =? m) cs))
+  <-> (forall c, In c (skipn 1001 cs) -> c_d c <> m).
+Proof. exact search2_sharp. Qed.
+(** [round 2] the EXACT model of obitag2.FindClosests ([find_closests2x]: cap at rank 1000 and, when the best distance
+    is 0, byte equality instead of D1Or0) is the capped scan above as soon as byte equality agrees with kernel
+    distance 0 (acgt sequences) — and the sharp statement for it *)
+Theorem C15_search2_exact_model : forall eqf thr qlen cs, (forall c, In c cs -> eqf (c_idx c) = (c_d c =? 0)) ->
+  find_closests2x eqf thr qlen cs = find_closests2 thr qlen cs.
+Proof. exact find_closests2x_eq. Qed.
+Theorem C15_search2_exact_lossless_iff_no_closest_beyond_rank_1000 :
+  forall eqf qlen cs, (forall c, In c cs -> eqf (c_idx c) = (c_d c =? 0)) ->
+  cs <> [] -> by_decreasing_cw cs -> qgram_ok qlen cs ->
+  forall m, (forall c, In c cs -> m <= c_d c) -> (exists c, In c cs /\ c_d c = m) ->
+  (s_maxe (find_closests2x eqf thr_fixed qlen cs) = Some m /\
+   s_bests (find_closests2x eqf thr_fixed qlen cs) = map c_idx (filter (fun c => c_d c =? m) cs))
+  <-> (forall c, In c (skipn 1001 cs) -> c_d c <> m).
+Proof. exact search2x_sharp. Qed.
+(** when byte equality is stricter than the kernel (IUPAC: acgn / acga at kernel distance 0) obitag2 keeps fewer ties
+    than a scan that asks the kernel (model-level: on today's code D1Or0 compares bytes too, such pairs are kernel
+    inconsistencies set aside by the harness, property C09) *)
+Theorem C15_search2_byte_equality_fewer_ties :
+  s_bests (find_closests thr_fixed 4 w2cs) = [1; 0] /\
+  s_bests (find_closests2x (fun i => i =? 1) thr_fixed 4 w2cs) = [1].
+Proof. exact search2x_iupac_fewer_ties. Qed.
 Theorem C15_search2_cap_refuted :
   by_decreasing_cw capcs /\ qgram_ok 15 capcs /\
   s_maxe (find_closests2 thr_fixed 15 capcs) = Some 4 /\
@@ -146,6 +237,52 @@ Theorem C15_index_lookup_is_lca :
       k <= e /\ In a pseq /\ is_lca_of anc a (map r_tax (filter (fun r => r_d r <=? e) rs)).
 Proof. exact index_lookup_is_lca. Qed.
 
+(** [round 2] IndexSequence always records distance 0 (the reference itself is never pruned: it shares |s|-3
+    4-mers with itself), so the first loop of Identify always finds an entry: the "horrible hack" branch (no
+    entry <= observed distance) is dead code under the guards, and neither loop can spin *)
+Theorem C15_index_has_distance_0 : forall slen pseq cs, iby_decreasing_cw cs -> iqgram_ok slen cs -> 0 < slen ->
+  (exists c, In c cs /\ i_d c = 0 /\ In (i_lca c) pseq) ->
+  exists a, In (0, a) (index_ref thr_fixed slen pseq cs).
+Proof. exact index_ref_zero. Qed.
+Theorem C15_identify_lookup_total : forall idx e, (exists a, In (0, a) idx) ->
+  lookup_id idx e = lookup idx e None /\ exists y, lookup_id idx e = Some y.
+Proof. exact lookup_id_zero. Qed.
+
+(** [core, round 2] the lookup of Identify for EVERY observed distance e (no restriction e < |reference|):
+    it returns the lowest common ancestor of the taxa of all references within min(e, |reference| - 1).
+    IndexSequence records no distance >= |reference| (`old := lseq`): beyond it the answer is the one for
+    |reference| - 1 — always on the path of the reference, hence an ancestor-or-self of its taxon *)
+Theorem C15_index_lookup_all_distances :
+  forall (anc : nat -> nat -> Prop) (lca : nat -> nat -> nat),
+  (forall a, anc a a) -> (forall a b c, anc a b -> anc b c -> anc a c) ->
+  (forall x a b, anc x (lca a b) <-> anc x a /\ anc x b) ->
+  forall slen tseq pseq rs,
+    path_chain anc pseq -> (forall r, In r rs -> In (lca tseq (r_tax r)) pseq) ->
+    (exists r, In r rs /\ r_tax r = tseq /\ r_d r = 0) ->
+    iby_decreasing_cw (icands lca tseq rs) -> iqgram_ok slen (icands lca tseq rs) -> 0 < slen ->
+    forall e, exists k a,
+      lookup_id (index_ref thr_fixed slen pseq (icands lca tseq rs)) e = Some (k, a) /\
+      k <= e /\ k < slen /\ In a pseq /\
+      is_lca_of anc a (map r_tax (filter (fun r => r_d r <=? Nat.min e (slen - 1)) rs)).
+Proof. exact index_lookup_all_distances. Qed.
+(** labelled observation, exactly: gccg (taxon 4, path 1-3-4) in {gccg:4, gctcg:3, gccggaca:2, gccggagtt:2}: index
+    {1 -> 3, 0 -> 4}; at observed distance 4 = |gccg| the answer is 3 although gccggaca (LCA with gccg = root)
+    is within 4. The answer is less general than the LCA of all references within 4, but still an ancestor of
+    the best match: neither clause of the property is violated (same case on the real code: corpus) *)
+Theorem C15_lookup_beyond_length_witness :
+  iby_decreasing_cw wbcs /\ iqgram_ok 4 wbcs /\
+  index_ref thr_fixed 4 [1; 3; 4] wbcs = [(1, 3); (0, 4)] /\
+  lookup_id (index_ref thr_fixed 4 [1; 3; 4] wbcs) 4 = Some (1, 3) /\
+  (exists c, In c wbcs /\ i_d c <= 4 /\ i_lca c = 1).
+Proof. exact lookup_beyond_length_witness. Qed.
+
+(** how narrow the observation is: Identify assigns only when alilen <= 2 lcs (identity >= 0.5); the observed distance
+    alilen - lcs can then reach the length of the best match (lcs <= that length) only when identity is exactly 0.5
+    and every symbol of the reference is matched (the query is twice as long and contains it as a subsequence) *)
+Theorem C15_lookup_beyond_length_only_at_identity_half : forall lcs ali blen,
+  lcs <= blen -> blen <= ali - lcs -> ali <= 2 * lcs -> ali = 2 * lcs /\ lcs = blen /\ ali - lcs = blen.
+Proof. exact beyond_length_only_at_half. Qed.
+
 (** the break of the unrepaired IndexSequence (threshold from the current candidate's length):
     distance 0 mapped to taxon 4 although an identical sequence of taxon 2 exists (LCA = root 1) *)
 Theorem C15_index_orig_refuted :
@@ -170,6 +307,13 @@ Theorem C15_assigned_is_ancestor :
     forall b, In b (s_bests st) -> anc t (tax b).
 Proof. exact assigned_is_ancestor. Qed.
 
+(** [round 2] Identify returns a taxon (no spinning loop, no nil taxon) as soon as there is a best match and every
+    best match has an index with an entry for distance 0 (C15_index_has_distance_0) *)
+Theorem C15_identify_total : forall (lca : nat -> nat -> nat) (indices : nat -> list (nat * nat)) st,
+  s_bests st <> [] -> (forall b, In b (s_bests st) -> exists a, In (0, a) (indices b)) ->
+  exists t, identify (fun a b => Some (lca a b)) indices st = Some t.
+Proof. exact identify_total. Qed.
+
 (** [core] end to end ("consequently …"): the taxon assigned to an acgt query is an ancestor-or-self
     of the taxon of EVERY reference at minimal kernel distance, for any index tables whose entries are
     ancestors-or-self of their reference's taxon (C15_index_is_lca: entries lie on its path) *)
@@ -181,6 +325,7 @@ Theorem C15_assignment_sound :
   (forall x a b, anc x (lca a b) <-> anc x a /\ anc x b) -> (forall x, anc 1 x) ->
   forall q refs order (tax : nat -> nat) (indices : nat -> list (nat * nat)) t,
     acgt_only q -> Forall acgt_only refs -> refs <> [] ->
+    cells_exact q -> Forall cells_exact refs ->
     Permutation order (seq 0 (length refs)) ->
     by_decreasing_cw (cands_of q refs (map (kernel q) refs) order) ->
     (forall b, b < length refs -> forall d a, In (d, a) (indices b) -> anc a (tax b)) ->
@@ -191,9 +336,28 @@ Theorem C15_assignment_sound :
       anc t (tax i).
 Proof. exact assignment_sound. Qed.
 
+(** ** outside the guard acgt_only (labelled observation, characterised) *)
+(** the kernel counts a column of two different but compatible IUPAC symbols as a match ([compat]: any relation);
+    the 4-mer code does not. With amb = number of such columns in the kernel's alignment, the bound holds with
+    kernel distance + amb in place of the distance: only the completeness direction can fail (a closest reference
+    with ambiguous columns can be pruned: C15_iupac_refuted); by C15_search_prefix_exact every reported best is at
+    the reported distance and that distance is never below the true minimum *)
+Theorem C15_iupac_bound : forall compat al,
+  Nat.max (length (al_left al)) (length (al_right al)) - 3 - 4 * ((length al - al_klcs compat al) + al_amb compat al)
+  <= common4 (al_left al) (al_right al).
+Proof. exact iupac_bound. Qed.
+Theorem C15_iupac_refuted : let compat := fun a b : N => (a =? 110)%N || (b =? 110)%N || (a =? b)%N in
+  length wamb - al_klcs compat wamb = 0 /\ al_amb compat wamb = 1 /\
+  common4 (al_left wamb) (al_right wamb) = 2 /\
+  ~ (Nat.max (length (al_left wamb)) (length (al_right wamb)) - 3 - 4 * (length wamb - al_klcs compat wamb)
+     <= common4 (al_left wamb) (al_right wamb)).
+Proof. exact iupac_refuted. Qed.
+
 (** ** non-vacuity: the hypotheses are satisfiable *)
 Example C15_search_nonvacuous : wcs <> [] /\ by_decreasing_cw wcs /\ qgram_ok (length wq) wcs.
 Proof. split; [discriminate|]. destruct search_orig_refuted as [_ [_ [_ [_ [S [Q _]]]]]]. now split. Qed.
+Example C15_cells_guard_nonvacuous : cells_exact hq /\ cells_exact [97; 99; 103; 116]%N.
+Proof. split; [exact (proj1 (proj2 qgram_wrapped_refuted))|apply short_cells_exact; vm_compute; reflexivity]. Qed.
 Example C15_kernel_hypothesis_nonvacuous : exists kernel : list N -> list N -> nat * nat,
   forall q r, acgt_only q -> acgt_only r -> edits (kdist kernel q r) q r.
 Proof. exact kernel_hyp_satisfiable. Qed.
@@ -224,3 +388,24 @@ Print Assumptions C15_index_lookup_is_lca.
 Print Assumptions C15_index_orig_refuted.
 Print Assumptions C15_assigned_is_ancestor.
 Print Assumptions C15_assignment_sound.
+Print Assumptions C15_base_code_table.
+Print Assumptions C15_cells_are_uint16.
+Print Assumptions C15_wrapped_count_exact.
+Print Assumptions C15_short_sequences_exact.
+Print Assumptions C15_qgram_bound_wrapped.
+Print Assumptions C15_qgram_wrapped_refuted.
+Print Assumptions C15_search_wrapped_refuted.
+Print Assumptions C15_search_prefix_exact.
+Print Assumptions C15_search2_lossless_iff_no_closest_beyond_rank_1000.
+Print Assumptions C15_index_has_distance_0.
+Print Assumptions C15_identify_lookup_total.
+Print Assumptions C15_index_lookup_all_distances.
+Print Assumptions C15_lookup_beyond_length_witness.
+Print Assumptions C15_identify_total.
+Print Assumptions C15_iupac_bound.
+Print Assumptions C15_iupac_refuted.
+Print Assumptions C15_search2_exact_model.
+Print Assumptions C15_search2_exact_lossless_iff_no_closest_beyond_rank_1000.
+Print Assumptions C15_search2_byte_equality_fewer_ties.
+Print Assumptions C15_lookup_beyond_length_only_at_identity_half.
+Print Assumptions C15_table_shared_count.
